@@ -216,15 +216,18 @@ fn main() {
         // 2. exhaustive small scopes
         let full = alphabet(5, 3);
         let small = alphabet(3, 2);
-        let (lf, ls) = if args.thorough() { (4, 5) } else { (3, 4) };
+        let (lf, ls) = if args.thorough() { (3, 5) } else { (3, 4) };
         for l in 1..=lf {
             all_seqs(&full, l, &mut seqs);
         }
         all_seqs(&small, ls, &mut seqs);
+        if args.thorough() {
+            all_seqs(&alphabet(4, 2), 4, &mut seqs);
+        }
         rep.exhaustive = true;
         rep.exhaustive_note = format!(
-            "all sequences of length <= {} over indices 1-5 x terms 1-3 ({} letters) and of length {} over indices 1-3 x terms 1-2 ({} letters); plus PRNG sequences (not exhaustive)",
-            lf, full.len(), ls, small.len()
+            "all sequences of length <= {} over indices 1-5 x terms 1-3 ({} letters) and of length {} over indices 1-3 x terms 1-2 ({} letters){}; plus PRNG sequences (not exhaustive)",
+            lf, full.len(), ls, small.len(), if args.thorough() { " and of length 4 over indices 1-4 x terms 1-2" } else { "" }
         );
         // 3. random long sequences over the full alphabet
         let mut rng = Rng::new(args.seed);
